@@ -34,7 +34,8 @@ class LProc(object):
         self.environ = {}
         if root is not None:
             self.environ["EUPS_LOCK_PID"] = "%d" % root
-        self.go = threading.Semaphore(0)
+        self.go = threading.Lock()       # used as a binary semaphore: released by the scheduler, acquired here
+        self.go.acquire()
         self.op = "start"            # next file-system call (or hold / done / failed / crashed)
         self.detail = ""
         self.choice = 0
@@ -165,7 +166,8 @@ class World(object):
         self.base = base
         self.stack = os.path.join(base, "stack")
         self.lockdir = os.path.join(self.stack, lockmod._lockDir)
-        self.back = threading.Semaphore(0)
+        self.back = threading.Lock()     # binary semaphore the other way round (hand-offs strictly alternate)
+        self.back.acquire()
         self.abort = False
         self.seq = 0
         self.created = {}
@@ -177,9 +179,10 @@ class World(object):
         self.lock.time = _TimeProxy()
 
     def reset(self, procs):
-        if os.path.isdir(self.stack):
-            shutil.rmtree(self.stack)
-        os.makedirs(self.stack)
+        if os.path.isdir(self.lockdir):
+            shutil.rmtree(self.lockdir)
+        if not os.path.isdir(self.stack):
+            os.makedirs(self.stack)
         self.abort = False
         self.seq = 0
         self.created = {}
